@@ -2,7 +2,7 @@ package main
 
 // C10 — Publisher: exactly once per live subscription, in order (publisher.go, handler.go).
 // Runner for the case lines documented in lean/FpgoVerif/Model/C10.lean:
-//   seq/sched:  s[@q][:script] ; z[@q] (zero-value Subscription, OnNext nil) ; u[@q]:<id> ; p[@q]:<v> ; c[@q] ; m[@q]:<f> ; h[@q] ; go<t>[@q]:<v> ; adv<t> ; fin<t>
+//   seq/sched:  r:g|i (new root publisher: PublisherNewGenerics[int]() / Publisher.New()) ; s[@q][:script] ; z[@q] (zero-value Subscription, OnNext nil) ; u[@q]:<id> ; p[@q]:<v> ; c[@q] ; m[@q]:<f> ; h[@q] ; go<t>[@q]:<v> ; adv<t> ; fin<t>
 //   stress:     k=v parameters (see c10_stress.go)
 // Observation: one token per op joined by " | ":  +id | - | n=k | m<q> | h | [q.sid:v ...] (+P<q>.<v> or D for background ops)
 
@@ -61,13 +61,13 @@ func (c *c10Ctl) Reach(gid int64, point string) {
 type c10Sub struct {
 	id     int
 	script []string
-	ptr    *fpgo.Subscription[int]
+	ptr    interface{} // *fpgo.Subscription[int] or *fpgo.Subscription[interface{}]
 	hidden bool
 }
 
 type c10Pub struct {
 	idx        int
-	p          *fpgo.PublisherDef[int]
+	p          c10P
 	subs       []*c10Sub
 	handler    *fpgo.HandlerDef
 	handlerGid int64
@@ -172,7 +172,7 @@ func (w *c10World) subscribe(pub *c10Pub, script []string) *c10Sub {
 	s := &c10Sub{id: len(pub.subs) + 1, script: script}
 	pub.subs = append(pub.subs, s)
 	w.mu.Unlock()
-	ptr := pub.p.Subscribe(fpgo.Subscription[int]{OnNext: func(v int) { w.callback(pub, s, v) }})
+	ptr := pub.p.Subscribe(func(v int) { w.callback(pub, s, v) })
 	w.mu.Lock()
 	s.ptr = ptr
 	w.mu.Unlock()
@@ -181,7 +181,7 @@ func (w *c10World) subscribe(pub *c10Pub, script []string) *c10Sub {
 
 func (w *c10World) unsubscribe(pub *c10Pub, id int) {
 	w.mu.Lock()
-	var ptr *fpgo.Subscription[int]
+	var ptr interface{}
 	if id >= 1 && id <= len(pub.subs) && !pub.subs[id-1].hidden {
 		ptr = pub.subs[id-1].ptr
 	}
@@ -305,7 +305,7 @@ func (w *c10World) doOp(tok string) (out string) {
 		s := &c10Sub{id: len(pub.subs) + 1}
 		pub.subs = append(pub.subs, s)
 		w.mu.Unlock()
-		ptr := pub.p.Subscribe(fpgo.Subscription[int]{})
+		ptr := pub.p.Subscribe(nil)
 		w.mu.Lock()
 		s.ptr = ptr
 		w.mu.Unlock()
@@ -333,7 +333,7 @@ func (w *c10World) doOp(tok string) (out string) {
 		}
 		return w.takeEvents()
 	case name == "c":
-		return "n=" + strconv.Itoa(pub.p.VerifSubscriberCount())
+		return "n=" + strconv.Itoa(pub.p.Count())
 	case name == "h", name == "hb":
 		// h: SubscribeOn(Handler.New()) (unbuffered channel); hb: a handler with a buffered channel
 		h := fpgo.Handler.New()
@@ -349,6 +349,13 @@ func (w *c10World) doOp(tok string) (out string) {
 		w.mu.Unlock()
 		pub.p.SubscribeOn(h)
 		return "h"
+	case name == "r":
+		// a new independent root publisher: r:g = PublisherNewGenerics[int](), r:i = Publisher.New() (interface{} twin)
+		w.mu.Lock()
+		nq := len(w.pubs)
+		w.pubs = append(w.pubs, &c10Pub{idx: nq, p: c10NewRoot(arg)})
+		w.mu.Unlock()
+		return "r" + strconv.Itoa(nq)
 	case name == "m":
 		np := pub.p.Map(c10Fn(arg))
 		w.mu.Lock()
@@ -410,7 +417,7 @@ func c10RunOps(body string) string {
 	fpgo.VerifSetController(ctl)
 	defer fpgo.VerifSetController(nil)
 	w := &c10World{depth: map[int64][]c10Ev{}, ctl: ctl, threads: map[int]*c10Thr{}}
-	w.pubs = []*c10Pub{{idx: 0, p: fpgo.PublisherNewGenerics[int]()}}
+	w.pubs = []*c10Pub{{idx: 0, p: c10NewRoot("g")}}
 	var outs []string
 	for _, tok := range strings.Split(body, ";") {
 		tok = strings.TrimSpace(tok)
